@@ -30,6 +30,7 @@ import os
 
 import ZODB.fsIndex
 import ZODB.POSException
+from ZODB.FileStorage.format import DATA_HDR_LEN
 from ZODB.FileStorage.format import TRANS_HDR_LEN
 from ZODB.FileStorage.format import CorruptedDataError
 from ZODB.FileStorage.format import DataHeader
@@ -84,28 +85,36 @@ class PackCopier(FileStorageFormatter):
         # Unclear:  If the length of the stored data doesn't match len(data),
         # an exception is raised.  If the lengths match but the data isn't
         # the same, 0 is returned.  Why the discrepancy?
+        # A transaction can hold several records for oid (an undo of
+        # several transactions): as for FileStorage._data_find and
+        # for loads, the last one counts.
         h = self._read_txn_header(tpos)
         tend = tpos + h.tlen
         pos = self._file.tell()
+        found = None
         while pos < tend:
             h = self._read_data_header(pos)
             if h.oid == oid:
-                # Make sure this looks like the right data record
-                if h.plen == 0:
-                    # This is also a backpointer.  Gotta trust it.
-                    return pos
-                if h.plen != len(data):
-                    # The expected data doesn't match what's in the
-                    # backpointer.  Something is wrong.
-                    logger.error("Mismatch between data and backpointer at %d",
-                                 pos)
-                    return 0
-                _data = self._file.read(h.plen)
-                if data != _data:
-                    return 0
-                return pos
+                found = pos, h
             pos += h.recordlen()
-        return 0
+        if found is None:
+            return 0
+        pos, h = found
+        # Make sure this looks like the right data record
+        if h.plen == 0:
+            # This is also a backpointer.  Gotta trust it.
+            return pos
+        if h.plen != len(data):
+            # The expected data doesn't match what's in the
+            # backpointer.  Something is wrong.
+            logger.error("Mismatch between data and backpointer at %d",
+                         pos)
+            return 0
+        self._file.seek(pos + DATA_HDR_LEN)
+        _data = self._file.read(h.plen)
+        if data != _data:
+            return 0
+        return pos
 
     def copy(self, oid, serial, data, prev_txn, txnpos, datapos):
         prev_pos = self._resolve_backpointer(prev_txn, oid, data)
